@@ -280,6 +280,9 @@ def gen_op(r, w, i):
         op["bytes"] = r.choice(["utf-8", "utf-8", "utf-16", "iso-8859-1"])
         op["bom"] = r.random() < 0.4
         op["root"] = op["root"].replace("@charset", "@charsex")
+        if op["bytes"] in ("utf-16", "utf-8") and r.random() < 0.4:
+            # first character after the byte order mark: code points whose UTF-16 bytes look like other signatures
+            op["root"] = r.choice(["\u0100", "\u4e00", "\u3000", "\uff00", "\u0400", "\ufeff", "\ufffe", "\u00ff", "\u00fe"]) + op["root"]
         if op["bytes"] == "iso-8859-1":
             op["root"] = '@charset "iso-8859-1";' + "".join(c if ord(c) < 256 else "?" for c in op["root"])
         elif op["bytes"] == "utf-8" and r.random() < 0.3:
